@@ -34,6 +34,12 @@ CHECKS = {
     'C03': dict(level='model_checking', ref='7 C03', technique='TLA+ model (adversary action AdvForge, action property ForgeryHarmless) + TLC + replay with concrete forged datagrams; exhaustive forgery menu per keyed state',
                 text=IKE + ' - the adversary injects cleartext, foreign-key and reflected datagrams that pass every header check; in addition, at every (role, state) pair with keys the full menu of the property (every exchange type, flag, Message ID, payload list; bit flips, truncations, extensions of the authentic datagram in flight) is delivered and a snapshot incl. the liveness timer compared.',
                 note='a protocol error escaping dispatch_message counts as no reply here (whether the loop survives is C17); IKE_SA_INIT requests always create a new responder and are not messages for an existing IKE_SA.'),
+    'C11': dict(level='model_checking', ref='7 C11', technique='TLA+ operators Negotiate.tla (Intersection, SelectBest, IsSubset, KeRule) with the property ChoiceOk / ResponseOk checked by TLC on every case; vectors compared with the implementation; end-to-end and scripted-peer sessions',
+                text='TLC checks on Negotiate.tla, for all 12252 (local policy, peer SA payload) cases of the universe, that the choice has exactly one transform per required type, each (type, id, key length) in both, from the first acceptable peer proposal in local preference order, and None iff nothing is acceptable; every case is then compared with Proposal.intersection / is_subset / _select_best_sa_proposal. End to end: pairs of connection configurations (refusal with NO_PROPOSAL_CHOSEN and nothing installed, INVALID_KE_PAYLOAD naming the chosen group, retry, chosen suite = specification); a scripted peer holding the keys answers with extra / foreign transforms and never-offered DH groups.',
+                note='order of transforms inside the answer not compared; universe of 2 ENCR key lengths + foreign ciphers, 3 INTEG, 1-2 PRF, 3 DH groups, ESN.'),
+    'C12': dict(level='model_checking', ref='7 C12', technique='TLA+ Selectors.tla: packet-set semantics, SubsetTheorem / ConversionTheorem / NarrowOk checked by TLC over the finite universe; vectors compared with the implementation; random ranges; end-to-end',
+                text='TLC proves on the finite universe that containment as implemented coincides with inclusion of the denoted packet sets (69696 pairs), that network/port conversions are exact, and that the narrowing decision stays inside proposal and policy and refuses only when nothing fits (62720 cases); the vectors are compared with TrafficSelector.is_subset / from_network / get_network / get_port and IkeSa._get_ipsec_configuration; random IPv4/IPv6 ranges beyond the universe; end to end: TS_UNACCEPTABLE for no policy / wrong mode, kernel selectors inside the entry, rekey selectors must equal, widened / mode-flipped responses never installed.',
+                note='address universe 0..7, ports {any, 2 values, 1 range}; well-formed selectors (start <= end).'),
     'C13': dict(level='model_checking', ref='7 C13', technique='TLA+ timer model IkeTimers.tla (relative deadlines, sweep of main_loop, loss / crash at any step) + TLC + replay under a virtual clock',
                 text='TLC checks Budget, SpacingFine / SpacingUniform (per schedule class), CrashBound, NoRetxAfterAnswer, TimersFire on IkeTimers.tla for every start kind (idle, each request kind, retries after INVALID_KE_PAYLOAD / COOKIE); every transition (fine and uniform schedules) resp. simulated behaviours (mixed schedules) are executed on the real code under a virtual clock through the timer part of main_loop: state, counters, all relative deadlines, transmission gaps and byte identity of every retransmission are compared. Plus: two IKE_SAs of one connection retransmitting concurrently; built-in constants with a dead peer; lifetime jitter bounds.',
                 note='spacing asserted per schedule class (observation O-9); DPD / lifetime scaled down via the configuration; peer abstracted to answer / lose / crash.'),
